@@ -85,7 +85,7 @@ func (m *MemTable) Get(key []byte) ([]byte, bool) {
 			return nil, true // Key exists but was deleted
 		}
 
-		return e.value, true
+		return copyValue(e.value), true
 	} else {
 		// For mutable memtables, we still need read lock protection
 		// as the structure could be modified during reads
@@ -102,8 +102,17 @@ func (m *MemTable) Get(key []byte) ([]byte, bool) {
 			return nil, true // Key exists but was deleted
 		}
 
-		return e.value, true
+		return copyValue(e.value), true
 	}
+}
+
+// copyValue returns a copy of a stored value, so that a caller writing into the
+// result cannot change the table (the iterators copy for the same reason). An
+// empty value stays non-nil: nil means deleted
+func copyValue(value []byte) []byte {
+	valueCopy := make([]byte, len(value))
+	copy(valueCopy, value)
+	return valueCopy
 }
 
 // Contains checks if the key exists in the MemTable
